@@ -11,7 +11,7 @@
    DESIGN.md C01 Layer C).  Outside the fragment the property is decided per explored program by the extracted
    specs on the real compiler's binary (tools/c01.py): translation validation. *)
 From Coq Require Import ZArith List String Lia.
-From HexVerif Require Import WMap Isa XAst XSem XSemProps XCodegenIsa XCodegenInv XCodegenExpr XCodegenStmt AsmSpec AsmSpecProofs XCodegenBridge XCodegenCall.
+From HexVerif Require Import WMap Isa XAst XSem XSemProps XCodegenIsa XCodegenInv XCodegenExpr XCodegenStmt AsmSpec AsmSpecProofs XCodegenBridge XCodegenCall XCodegenImage XCodegenDemo.
 Import ListNotations.
 Local Open Scope Z_scope.
 
@@ -103,11 +103,13 @@ Print Assumptions C01_expr_fragment_partial.
 (* (4b) PARTIAL (the part of Layer C that is proved for statements).  Input: a statement in the form the code
    generator reads it (after XConstProp.front).  Fragment: skip, stop, return e, if (xcmp's three shapes for skip
    branches), while, sequences, assignment to a global / local / value formal, the system calls exit `0(e)` and
-   put `1(e, s)` as statements, over the expressions of (4).  `cs` models StmtCodeGen and genSysCall (call-free
+   put `1(e, s)` as statements, over the expressions of (4); and, as the WHOLE right-hand side of an assignment or
+   the whole value of a return, a call f(e1..en) of a function with call-free actuals (cgx; see (4c)).  `cs` models StmtCodeGen and genSysCall (call-free
    actuals) as handed to OptimiseDirectives, i.e. BEFORE its three peephole rewrites (tools/c01.py ties
    prologue ++ cs body ++ epilogue, with the peepholes applied by the executable `peephole`, to `xcmp -S`).
    stmt_ok f: whatever XSem.exec with fuel f answers for the statement from a state st related to the memory m
-   (Rel: protected words intact, mem[1] = sp, every variable's word holds its value, a frame exists), the code run
+   (Rel: protected words intact, mem[1] = sp, every variable's word holds its value, a frame exists, and no local
+   constant of the running frame bears the name of a callable procedure), the code run
    by Isa.run from its first byte (any areg, breg) does the same:
      Ret Normal st'       : it emits exactly the Write events of the outputs XSem added (post), consumes no input,
                             ends just behind the code, in a memory related to st';
@@ -118,7 +120,8 @@ Print Assumptions C01_expr_fragment_partial.
    By induction on the fuel, so for any number of loop iterations and any nesting.
    Layout hypotheses: temporaries and outgoing area (sp .. sp+og-1) inside memory, unprotected, not word 1,
    disjoint from each other and from the variables; distinct variables have distinct words; sp+2 usable by `stop`.
-   Missing for C01_full: function calls and calls inside operands (procedure-call statements: see (4c), (4d)),
+   Missing for C01_full: calls inside operands of an operator or as actuals (procedure-call statements and function
+   calls as a whole right-hand side: see (4c), (4d)),
    get, arrays and strings, the peephole pass, and the layout of whole programs. *)
 Theorem C01_stmt_fragment_partial :
   forall (venv : string -> option loc) (pool : Z -> option Z) (size nslots off0 og : Z) (exitl : label) (ge : genv)
@@ -143,11 +146,11 @@ Theorem C01_stmt_normal_partial :
     stmt_ok pinfo Fr Dq venv pool size nslots off0 og exitl ge P m0 lab sp f ->
     forall s n code n' st st', cs pinfo venv pool size nslots off0 og exitl s n = Some (code, n') ->
     exec f ge s st = Ret Normal st' ->
-    forall m pos nxt a b inp, Rel Dq venv ge P m0 sp st m -> code_at (C P m0) lab pos code nxt ->
+    forall m pos nxt a b inp, Rel pinfo Dq venv ge P m0 sp st m -> code_at (C P m0) lab pos code nxt ->
     0 <= pos -> nxt < W -> 0 <= lab exitl < W ->
     exists outs a' b' m',
       runs inp (mk pos a b 0 m) (map wr_ev outs) inp (mk nxt a' b' 0 m') /\
-      Rel Dq venv ge P m0 sp st' m' /\ post st st' outs /\ frame_only Fr venv size nslots off0 og sp m m'.
+      Rel pinfo Dq venv ge P m0 sp st' m' /\ post st st' outs /\ frame_only Fr venv size nslots off0 og sp m m'.
 Proof. exact stmt_normal. Qed.
 Print Assumptions C01_stmt_normal_partial.
 
@@ -158,7 +161,10 @@ Print Assumptions C01_stmt_normal_partial.
    yields, having emitted exactly the outputs, and having changed only the caller's outgoing area, the free stack
    Fr below the frame, or words of variables in scope.  If every procedure in pinfo meets call_spec for all smaller
    fuels, the statement theorem holds for bodies that contain such calls (any nesting, loops, recursion through
-   the fuel).  That every simple procedure meets call_spec is (4d).  Missing: function calls, calls inside operands. *)
+   the fuel).  Functions: `x := f(e1..en)` and `return f(e1..en)` (genFuncCall: the actuals go to sp+2.., branch and
+   link, then LDAM 1; LDAI 1 reads the result from the outgoing word sp+1); call_spec for a function additionally
+   says that XSem's result is an integer z and that word sp+1 holds z mod 2^32 at the return.
+   That every simple procedure and function meets call_spec is (4d).  Missing: calls inside operands / actuals. *)
 Theorem C01_stmt_calls_partial :
   forall (pinfo : string -> option pframe) (Fr : Z -> Prop) (Dq : nat -> Prop)
          (venv : string -> option loc) (pool : Z -> option Z) (size nslots off0 og : Z) (exitl : label) (ge : genv)
@@ -174,36 +180,40 @@ Theorem C01_stmt_calls_partial :
        in_mem (addr_of sp l) = true /\ ~ scratch Fr size nslots off0 og sp (addr_of sp l) /\ ~ P (addr_of sp l) /\ addr_of sp l <> 1) ->
     (forall x y lx ly, venv x = Some lx -> venv y = Some ly -> x <> y -> addr_of sp lx <> addr_of sp ly) ->
     (forall p pi, pinfo p = Some pi -> 0 <= lab (pf_entry pi) < W) ->
-    (forall p pi st n, pinfo p = Some pi -> call_target ge p st <> TSys n) ->
+    (forall p pi, pinfo p = Some pi -> assoc p (g_vals ge) = None) ->
     forall f, (forall f', (f' < f)%nat -> call_spec pinfo Fr Dq venv size nslots off0 og ge P m0 lab sp f') ->
     stmt_ok pinfo Fr Dq venv pool size nslots off0 og exitl ge P m0 lab sp f.
 Proof. exact stmt_correct_calls. Qed.
 Print Assumptions C01_stmt_calls_partial.
 
-(* (4d) PARTIAL: the program-level induction -- procedures meet the call specification, so (4c) holds
-   unconditionally for bodies with procedure-call statements, recursion included.
-   Setting.  pinfo is the table of callable procedures.  Each is a PROCEDURE (not a function) that is `simple`: value
+(* (4d) PARTIAL: the program-level induction -- procedures and functions meet the call specification, so (4c)
+   holds unconditionally for bodies with procedure-call statements and function calls as right-hand sides,
+   recursion included.
+   Setting.  pinfo is the table of callable procedures and functions.  Each is `simple`: value
    formals fn and var locals ln only, names pairwise distinct, none of them the name of a global variable (no
    shadowing of globals; tools/c01.py's generator does produce shadowing, it is outside this theorem).  Its code
-   at its entry label is  pro size ++ cs body ++ epi exitl size  -- xcmp's prologue (LDBM 1; STAI 0; LDAC -size; ADD;
-   STAM 1), the body as `cs` generates it in the frame environment frame_venv (local j at sp+size-1-j, formal i at
-   sp+size+1+i, globals at their DATA words), the exit label and the epilogue (LDBM 1; LDAC size; ADD; STAM 1;
-   LDBI size; BRB); this is the model's lowered procedure (C01_cproc_lowered_shape), i.e. BEFORE the peepholes.
+   at its entry label is  pro size ++ cs body ++ epi_of is_func exitl size  -- xcmp's prologue (LDBM 1; STAI 0;
+   LDAC -size; ADD; STAM 1), the body as `cs` generates it in the frame environment frame_venv (local j at
+   sp+size-1-j, formal i at sp+size+1+i -- sp+size+2+i in a function --, globals at their DATA words), the exit label
+   and the epilogue (LDBM 1; [function: STAI size+1, the result to the caller's outgoing word 1;] LDAC size; ADD;
+   STAM 1; LDBI size; BRB); this is the model's lowered procedure (C01_cproc_lowered_shape), BEFORE the peepholes.
    Frame numbers: 0 < size <= maxframe, locals <= nslots, nslots + og <= size.  Globals lie below stack_lo, the
-   region [stack_lo, 2^18) is unprotected, word 1 is unprotected, no global is a `val` constant.
+   region [stack_lo, 2^18) is unprotected, word 1 is unprotected, no global variable and no procedure of the table
+   bears the name of a global `val` constant.
    frame_ok .. sp: a frame of such a procedure at stack pointer sp >= stack_lo whose formals fit below the top of
    memory.  The relation Rel of that frame carries the stack budget
         Dq_of: stack_lo + (g_maxdepth ge - depth) * maxframe <= sp,
    which is preserved into callees because XSem refuses calls beyond g_maxdepth (DepthExceeded = Fail, nothing
    claimed): so the stack never runs below stack_lo in a run XSem accepts.
    Claim: for every fuel f and every such frame, stmt_ok holds for the statements of the fragment of (4b) PLUS
-   procedure-call statements p(e1..en) with call-free actuals, p in pinfo (C01_calls_partial); and a call made from
+   procedure-call statements p(e1..en) and right-hand sides f(e1..en) with call-free actuals, p, f in pinfo
+   (C01_calls_partial); a function body that ends without `return` is a Fail in XSem (nothing claimed); and a call made from
    such a frame (control at the callee's entry label, link address in areg, actuals in the outgoing words) returns
    to the link address with the caller's relation restored for the state XSem's `invoke` yields
    (C01_call_ok_partial).  Proof: strong induction on the fuel, alternating the two statements; the callee's
    relation is built from XSem.enter (locals undefined, formals = actuals), the caller's is rebuilt from the
    callee's frame_only.
-   Missing for C01_full: functions and calls inside operands (needs a commutation theorem for XSem's operand
+   Missing for C01_full: calls inside operands and actuals (needs a commutation theorem for XSem's operand
    evaluation order), array/proc formals, shadowing of globals, size = 0 frames, the peephole pass, get, arrays,
    strings, the entry stub and the whole-program layout (that DATA/stack/code are placed so that the layout
    hypotheses hold is checked per program by tools/c08.py's monitor, not proved). *)
@@ -211,18 +221,19 @@ Theorem C01_calls_partial :
   forall (ge : genv) (gaddr : string -> option Z) (pool : Z -> option Z) (P : Z -> Prop) (m0 : WMap.t)
          (lab : label -> Z) (pinfo : string -> option pframe) (lay : string -> option playout) (stack_lo maxframe : Z),
     (forall p pi, pinfo p = Some pi ->
-       pf_isfunc pi = false /\ 0 <= lab (pf_entry pi) /\
+       0 <= lab (pf_entry pi) /\
        exists pr fn ln L bc n' endp,
-         find_proc p (g_procs ge) = Some pr /\ lay p = Some L /\ simple_proc gaddr pr fn ln /\ numbers_ok maxframe pr L /\
+         find_proc p (g_procs ge) = Some pr /\ pf_isfunc pi = is_func pr /\ lay p = Some L /\ simple_proc gaddr pr fn ln /\
+         numbers_ok maxframe pr L /\
          cs pinfo (frame_venv gaddr pr (pl_size L)) pool (pl_size L) (pl_nslots L) (first_temp pr) (pl_og L) (pl_exit L)
             (body pr) (pl_n0 L) = Some (bc, n') /\
-         code_at (C P m0) lab (lab (pf_entry pi)) (pro (pl_size L) ++ bc ++ epi (pl_exit L) (pl_size L)) endp /\ endp < W) ->
+         code_at (C P m0) lab (lab (pf_entry pi)) (pro (pl_size L) ++ bc ++ epi_of (is_func pr) (pl_exit L) (pl_size L)) endp /\ endp < W) ->
     (forall x a, gaddr x = Some a -> in_mem a = true /\ ~ P a /\ a <> 1 /\ a < stack_lo /\ assoc x (g_vals ge) = None) ->
     (forall x y a b, gaddr x = Some a -> gaddr y = Some b -> x <> y -> a <> b) ->
     1 < stack_lo /\ (forall a, stack_lo <= a < MEMW -> ~ P a) ->
     ~ P 1 ->
     (forall v a, pool v = Some a -> P a /\ in_mem a = true /\ rd m0 a = v mod W) ->
-    (forall p pi st n, pinfo p = Some pi -> call_target ge p st <> TSys n) ->
+    (forall p pi, pinfo p = Some pi -> assoc p (g_vals ge) = None) ->
     0 <= maxframe ->
     forall f pr fn ln L sp, frame_ok gaddr stack_lo maxframe pr fn ln L sp ->
       stmt_ok pinfo (Fr_of stack_lo sp) (Dq_of ge stack_lo maxframe sp) (frame_venv gaddr pr (pl_size L)) pool
@@ -234,18 +245,19 @@ Theorem C01_call_ok_partial :
   forall (ge : genv) (gaddr : string -> option Z) (pool : Z -> option Z) (P : Z -> Prop) (m0 : WMap.t)
          (lab : label -> Z) (pinfo : string -> option pframe) (lay : string -> option playout) (stack_lo maxframe : Z),
     (forall p pi, pinfo p = Some pi ->
-       pf_isfunc pi = false /\ 0 <= lab (pf_entry pi) /\
+       0 <= lab (pf_entry pi) /\
        exists pr fn ln L bc n' endp,
-         find_proc p (g_procs ge) = Some pr /\ lay p = Some L /\ simple_proc gaddr pr fn ln /\ numbers_ok maxframe pr L /\
+         find_proc p (g_procs ge) = Some pr /\ pf_isfunc pi = is_func pr /\ lay p = Some L /\ simple_proc gaddr pr fn ln /\
+         numbers_ok maxframe pr L /\
          cs pinfo (frame_venv gaddr pr (pl_size L)) pool (pl_size L) (pl_nslots L) (first_temp pr) (pl_og L) (pl_exit L)
             (body pr) (pl_n0 L) = Some (bc, n') /\
-         code_at (C P m0) lab (lab (pf_entry pi)) (pro (pl_size L) ++ bc ++ epi (pl_exit L) (pl_size L)) endp /\ endp < W) ->
+         code_at (C P m0) lab (lab (pf_entry pi)) (pro (pl_size L) ++ bc ++ epi_of (is_func pr) (pl_exit L) (pl_size L)) endp /\ endp < W) ->
     (forall x a, gaddr x = Some a -> in_mem a = true /\ ~ P a /\ a <> 1 /\ a < stack_lo /\ assoc x (g_vals ge) = None) ->
     (forall x y a b, gaddr x = Some a -> gaddr y = Some b -> x <> y -> a <> b) ->
     1 < stack_lo /\ (forall a, stack_lo <= a < MEMW -> ~ P a) ->
     ~ P 1 ->
     (forall v a, pool v = Some a -> P a /\ in_mem a = true /\ rd m0 a = v mod W) ->
-    (forall p pi st n, pinfo p = Some pi -> call_target ge p st <> TSys n) ->
+    (forall p pi, pinfo p = Some pi -> assoc p (g_vals ge) = None) ->
     0 <= maxframe ->
     forall f pr fn ln L sp, frame_ok gaddr stack_lo maxframe pr fn ln L sp ->
       call_spec pinfo (Fr_of stack_lo sp) (Dq_of ge stack_lo maxframe sp) (frame_venv gaddr pr (pl_size L))
@@ -256,11 +268,68 @@ Print Assumptions C01_call_ok_partial.
 (* the code shape assumed in (4d) is the executable model's lowered procedure (exit label 0, body labels from 1,
    nslots = size), which tools/c01.py compares with `xcmp -S` after the model's peephole pass *)
 Theorem C01_cproc_lowered_shape : forall pinfo gaddr pool p size og code,
-  is_func p = false -> 0 < size -> cproc_lowered pinfo gaddr pool p size og = Some code ->
+  0 < size -> cproc_lowered pinfo gaddr pool p size og = Some code ->
   exists bc n', cs pinfo (frame_venv gaddr p size) pool size size (first_temp p) og 0 (body p) 1 = Some (bc, n') /\
-                code = pro size ++ bc ++ epi 0 size.
+                code = pro size ++ bc ++ epi_of (is_func p) 0 size.
 Proof. exact cproc_lowered_simple. Qed.
 Print Assumptions C01_cproc_lowered_shape.
+
+(* (4e) NON-VACUITY of (4d): a program with a non-empty procedure table for which every hypothesis is discharged.
+   The program (coq/XCodegenDemo.v):  val put = 1; var g;
+       func fd(val k) is if k = 0 then return 7 else return fd(k - 1)
+       proc cd(val n) is var t; { t := n + 48; put(t, 0); g := g + n; if n = 0 then skip else cd(n - 1) }
+       proc main() is { g := 0; cd(3); g := fd(g) }
+   -- a recursive procedure with a value formal and a local, a recursive function used as `return f(..)` and as
+   `x := f(..)`, all called with call-free actuals.  XConstProp.front only
+   turns put(..) into the system call (C01_demo_front); XSem gives it the outputs "3210" (C01_demo_spec).
+   Its image is laid out as xcmp does (BR _start; DATA 199997; g; _start: LDAP _exit; BR main; _exit: ..; cd; main)
+   from the model's lowered code -- prologue ++ cs body ++ exit label ++ epilogue, BEFORE the peepholes, which is the
+   code (4d) speaks of -- by the assembler model AsmLayout.assemble_directives (C01_demo_assembled: 136 bytes).  The
+   ISA runs that image from reset to the spec's behaviour (C01_demo_image_runs, by computation).
+   prog_hyps is the conjunction of the hypotheses of C01_calls_partial, word for word (C01_calls_of_hyps derives the
+   theorem from it); C01_calls_nonvacuous_hyps: it holds for the demo, with P = the code words 3..33, m0 = the loaded
+   image, lab = the label positions of the layout, stack_lo = 1000, maxframe = 5, depth bound 10.  The code_at
+   hypotheses are established by running the ISA's own decoder over the image (XCodegenImage.code_chk_sound through
+   C01_instr_at_of_decode).
+   C01_calls_nonvacuous_run: the theorem applied.  From main's frame (mem[1] = 199994, g unassigned) the ISA runs
+   the code of main's body `g := 0; cd(3); g := fd(g)` at bytes [112, 129) -- four nested activations of cd, each
+   with prologue, output, recursive call and epilogue, then seven of the function fd, each handing its result back
+   through the caller's outgoing word -- to the end of that code, emitting exactly Write 51, 50, 49, 48 on stream
+   0 and consuming no input; mem[1] is 199994 again and g's word holds 7 = fd(6).  Not by running the ISA: by
+   C01_calls_partial from XSem's run of the statement.
+   demo_cproc_cd / _main / _fd (XCodegenDemo.v): what the executable model (with its peephole pass) generates for
+   the three; tools/c01.py (coq_demo_listing_tie) re-checks these instruction lists, as written in coq/XCodegenDemo.v,
+   against `xcmp -S` of the real compiler on every run (identical up to label names). *)
+Theorem C01_calls_of_hyps : forall ge gaddr pool P m0 lab pinfo lay stack_lo maxframe,
+  prog_hyps ge gaddr pool P m0 lab pinfo lay stack_lo maxframe ->
+  forall f pr fn ln L sp, frame_ok gaddr stack_lo maxframe pr fn ln L sp ->
+    stmt_ok pinfo (Fr_of stack_lo sp) (Dq_of ge stack_lo maxframe sp) (frame_venv gaddr pr (pl_size L)) pool
+            (pl_size L) (pl_nslots L) (first_temp pr) (pl_og L) (pl_exit L) ge P m0 lab sp f.
+Proof. exact stmt_calls_of_hyps. Qed.
+Print Assumptions C01_calls_of_hyps.
+
+Theorem C01_calls_nonvacuous_hyps :
+  prog_hyps demo_ge demo_gaddr demo_pool demo_P demo_m0 demo_lab demo_pinfo demo_lay demo_stack_lo demo_maxframe.
+Proof. exact demo_hyps. Qed.
+Print Assumptions C01_calls_nonvacuous_hyps.
+
+Theorem C01_calls_nonvacuous_run : forall a b inp, exists a' b' m',
+  runs inp (mk 112 a b 0 (wr demo_m0 1 199994)) [Write 51 0; Write 50 0; Write 49 0; Write 48 0] inp (mk 129 a' b' 0 m') /\
+  rd m' 1 = 199994 /\ rd m' 2 = 7.
+Proof. exact demo_main_body_runs. Qed.
+Print Assumptions C01_calls_nonvacuous_run.
+
+Example C01_demo_front : XConstProp.front demo_src = XConstProp.COk demo.
+Proof. exact demo_front. Qed.
+Example C01_demo_spec : run_fuel 100 1000 10 demo [] =
+  Behaviour {| outputs := [(0, 51); (0, 50); (0, 49); (0, 48)]; consumed := 0; exit_value := 0 |}.
+Proof. exact demo_spec. Qed.
+Example C01_demo_assembled : exists o, AsmLayout.assemble_directives demo_dirs [] = AsmModel.Ok o /\ AsmLayout.ao_image o = demo_bytes /\
+  map (fun l => (l, lab_of (AsmLayout.ao_layout o) l)) demo_label_names = demo_labs.
+Proof. exact demo_assembled. Qed.
+Example C01_demo_image_runs : isa_shows (words_of_bytes demo_bytes) [] 600
+  {| outputs := [(0, 51); (0, 50); (0, 49); (0, 48)]; consumed := 0; exit_value := 0 |}.
+Proof. vm_compute. repeat split. Qed.
 
 (* (5) the hypothesis code_at of (4) is what the assembler side delivers: where the ISA's own decoder reads
    instruction i (for a branch: with its label's position relative to the next instruction as operand) in an image
